@@ -232,6 +232,39 @@ func runC09(c *Ctx) {
 			}
 		})
 	}
+	// the functions accepted above as "detaching" really detach: what they return has no parent scope
+	if !envHasMutex {
+		for _, name := range []string{"Environment.Snapshot", "Environment.Clone", "Environment.Copy"} {
+			fn := c.fn(interpPkg, name)
+			if fn == nil {
+				continue
+			}
+			detached, why := true, ""
+			eachInstr(fn, func(_ *ssa.BasicBlock, _ int, ins ssa.Instruction) {
+				r, ok := ins.(*ssa.Return)
+				if !ok {
+					return
+				}
+				rv := retVals(r)[0]
+				if derivesFrom(rv, func(v ssa.Value) bool {
+					cl, ok := v.(*ssa.Call)
+					return ok && callName(cl) == interpPath+".NewChildEnvironment"
+				}) {
+					detached, why = false, "it returns a NewChildEnvironment(...) of a live scope"
+				}
+			})
+			eachInstr(fn, func(_ *ssa.BasicBlock, _ int, ins ssa.Instruction) {
+				st, ok := ins.(*ssa.Store)
+				if !ok || !isStoreToField(st, "Environment", "parent") {
+					return
+				}
+				if !isNilConst(st.Val) {
+					detached, why = false, "it links the copy to a parent scope"
+				}
+			})
+			c.ob("C09-R2", fnKey(fn)+"#returns-an-environment-without-parent", fn.Pos(), detached, "this function is what detaches an async block from its parent's live scopes, but "+why+": lookups and assignments in the block walk into a map the parent goroutine keeps writing (unsynchronised map access is fatal; the block's writes become visible to the parent)")
+		}
+	}
 	if envHasMutex {
 		le := newLck(c, &lckConfig{rule: "C09-R2", pkgs: []string{interpPkg}, guards: []guard{{typ: interpPkg + ".Environment", field: "vars", class: interpPkg + ".Environment.mu"}}})
 		le.run()
